@@ -7,6 +7,11 @@ VERIF = os.path.dirname(os.path.dirname(os.path.abspath(__file__)))
 
 # id -> (level, technique, level text, level note, design ref)
 CLAIMED = {
+    "C25": ("exploration",
+            "deterministic simulation: a real tracking client (snapshot + ordered signal replay) against at/remove histories incl. (re)registering the ObjectManager, with an operation racing the snapshot",
+            "A real client takes GetManagedObjects while a server operation may run concurrently, then applies the InterfacesAdded/Removed signals it received since, in order and idempotently - the weakest client that could possibly work. After every further operation its view must equal a fresh listing (properties included).",
+            "Nested managers are excluded (the implementation documents them as unsupported); one root manager or two sibling managers are used.",
+            "DESIGN.md §3 C25"),
     "C28": ("exploration",
             "deterministic simulation: Get/GetAll/Set histories (sequential and pipelined) from a raw client against the real Properties interface; linearizability against a property-map model plus signal accounting",
             "A raw client issues Get / GetAll / Set calls of every kind (right and wrong type, unknown, read-only, write-only, unknown interface) against properties of every access and emits-changed mode, one at a time or pipelined (Properties handlers run concurrently). The decoded history must be linearizable against a property map, and by quiescence the PropertiesChanged signals must be exactly those the successful Sets imply.",
